@@ -2,7 +2,7 @@
    Print Assumptions on every one of them on every check run.
    K is any commutative ring with Leibniz equality (scores: log-probabilities, back-offs, weights). *)
 From Coq Require Import List NArith ZArith Bool Arith Ring_theory Sorted Reals.
-From Kenlm Require Import C13.InterpSpec C13.InterpModel C13.MergeVocabModel C13.InterpProofs C13.MergeVocabProofs C13.InterpReals.
+From Kenlm Require Import C13.InterpSpec C13.InterpModel C13.MergeVocabModel C13.InterpProofs C13.MergeVocabProofs C13.InterpReals C13.BseModel C13.BseProofs.
 Import ListNotations.
 
 (* For ANY function logZ, the emitted (probability, back-off) table, evaluated by the ARPA back-off recursion,
@@ -64,6 +64,16 @@ Theorem C13_model_rows_are_spec_sums :
     P = wsum K k0 kadd kmul (comps_of K cs) (fun T => score K k0 kadd T (removelast g) (last g UNK)) /\
     B = wsum K k0 kadd kmul (comps_of K cs) (fun T => bo K k0 T g).
 Proof. exact merged_is_spec. Qed.
+
+(* The per-model back-off levels that pass 1 packs into every merged record (BoundedSequenceEncoding) are what pass 2
+   unpacks: for every vector of bounds (bytes) and every vector of values below 2^bitlen(bound), over any number of
+   64-bit words, with the decoder loading min(8, remaining) bytes per word and the encoder writing only the used bytes
+   of the last word. *)
+Theorem C13_bse_roundtrip : forall bounds vals,
+  (forall b, In b bounds -> (b < 256)%N) ->
+  Forall2 (fun b v => (v < 2 ^ bitlen b)%N) bounds vals ->
+  decode bounds (encode bounds vals) = vals.
+Proof. exact bse_roundtrip. Qed.
 
 (* MergeVocab: the universal vocabulary is the sorted union without duplicates and every model word is mapped
    to the universal index that holds the same hash; the loop never runs out of fuel. *)
